@@ -491,6 +491,13 @@ struct Cfg {
     det: Option<String>,
 }
 
+/// a host function that reads buffers: (ptr,len) pairs by SIGNATURE (pointer parameter followed by its
+/// length parameter), not by what the body does with them — the oracle demands that the runtime
+/// receives memory[ptr..ptr+len) for exactly these pairs, in this order
+fn is_reader(f: &HostFn) -> bool {
+    !f.native.sig_pairs.is_empty() && f.native.writes.is_empty()
+}
+
 fn random_cfg(rng: &mut Rng, fns: &[HostFn], consume_idx: Option<usize>, test_write_idx: Option<usize>) -> Cfg {
     // memory: initial pages 1..3, grown by 0..2
     let init_pages = rng.range(1, 3);
@@ -499,9 +506,9 @@ fn random_cfg(rng: &mut Rng, fns: &[HostFn], consume_idx: Option<usize>, test_wr
     let seed = rng.below(256);
     let kind = rng.below(100);
     let plan = if kind < 62 || consume_idx.is_none() {
-        let readers: Vec<usize> = (0..fns.len()).filter(|k| !fns[*k].native.reads.is_empty()).collect();
+        let readers: Vec<usize> = (0..fns.len()).filter(|k| is_reader(&fns[*k])).collect();
         let fi = *rng.pick(&readers);
-        let npairs = fns[fi].native.reads.len();
+        let npairs = fns[fi].native.sig_pairs.len();
         let all_inside = rng.chance(1, 4);
         let bad = rng.usize_below(npairs);
         let mut pairs = Vec::new();
@@ -554,7 +561,7 @@ fn det_family(fns: &[HostFn], consume_idx: Option<usize>, test_write_idx: Option
     let mut v: Vec<Cfg> = Vec::new();
     let max = u32::MAX as u64;
     let mems: [(u64, u64); 5] = [(1, 0), (2, 0), (3, 0), (1, 1), (2, 2)];
-    let single = (0..fns.len()).find(|k| fns[*k].native.reads.len() == 1 && fns[*k].visible).expect("a single-pair host function");
+    let single = (0..fns.len()).find(|k| is_reader(&fns[*k]) && fns[*k].native.sig_pairs.len() == 1 && fns[*k].visible).expect("a single-pair host function");
     let mut seedc = 0u64;
     let mut push = |v: &mut Vec<Cfg>, mem: (u64, u64), plan: Plan, class: &str| {
         seedc += 1;
@@ -604,7 +611,10 @@ fn det_family(fns: &[HostFn], consume_idx: Option<usize>, test_write_idx: Option
     // ---- every (ptr,len) pair of every host function at the exact end and one beyond; the other
     // pairs are inside with pairwise distinct lengths (a pair read with another pair's length shows)
     for (fi, f) in fns.iter().enumerate() {
-        let n = f.native.reads.len();
+        if !is_reader(f) {
+            continue;
+        }
+        let n = f.native.sig_pairs.len();
         for k in 0..n {
             for plus in [0u64, 1] {
                 let m = PAGE;
@@ -793,7 +803,7 @@ fn main() {
                 let fi = *fi;
                 let f = &fns[fi];
                 let mut argv = vec![0u64; f.native.params.len()];
-                for (k, (pi, li)) in f.native.reads.iter().enumerate() {
+                for (k, (pi, li)) in f.native.sig_pairs.iter().enumerate() {
                     argv[*pi] = pairs[k].0 as u64;
                     argv[*li] = pairs[k].1 as u64;
                 }
